@@ -64,6 +64,8 @@ def mat(v, B=None):
                 return np.array([np.datetime64(x, "ns") for x in v["v"]])
             if t == "dti":
                 return pd.DatetimeIndex(v["v"], tz=v.get("tz"))
+            if t == "nd_obj":
+                return np.array([pd.Timestamp(x, tz=v.get("tz")) for x in v["v"]], dtype=object)
             if t == "sev":
                 return {k: mat(x, B) for k, x in v["d"].items()}
             if t == "tuple":
@@ -375,6 +377,8 @@ def tag_seq(env, pts, form, tz="param"):
         return {"$t": "nd_dt", "v": [iso(p) for p in pts]}  # datetime64 is naive by nature
     if form == "dti":
         return {"$t": "dti", "v": [iso(p) for p in pts], "tz": tz}
+    if form == "nd_obj":
+        return {"$t": "nd_obj", "v": [iso(p) for p in pts], "tz": tz}  # numpy object array of (aware) Timestamps
     if form == "scalar":
         assert len(pts) == 1
         return env.tag_date(pts[0], tz=tz)
@@ -394,17 +398,30 @@ def gen_sev(env, values_fn, k=None, with_end=None, cover=True, forms=None):
         with_end = True
     if not with_end and n == 1 and env.tz == "US/Eastern":
         with_end = True  # EAO's open-ended default (Timestamp.max) overflows when localised west of UTC
-    form = rng.choice(forms or (["list", "list", "nd_dt", "dti"] + (["scalar"] if n == 1 else [])))
+    form = rng.choice(forms or (["list", "list", "nd_dt", "dti", "nd_obj"] + (["scalar"] if n == 1 else [])))
     if form == "nd_dt" and env.param_tz is not None:
-        form = "list"
+        form = "nd_obj"
     d = {"start": tag_seq(env, starts, form)}
     if with_end:
         d["end"] = tag_seq(env, ends, form)
     if form == "scalar":
         d["values"] = vals[0]
     else:
-        d["values"] = rng.choice([vals, t_nd(vals)]) if rng.random() < 0.5 else vals
+        d["values"] = value_form(rng, vals)
     return {"$t": "sev", "d": d}
+
+
+def value_form(rng, vals):
+    """list of floats, float array, or - when the numbers are whole - list of ints / integer array"""
+    r = rng.random()
+    if r < 0.45:
+        return vals
+    if r < 0.75:
+        return t_nd(vals)
+    ints = [int(round(v)) for v in vals]
+    if all(i != 0 for i in ints) or all(v == 0 for v in vals):
+        return ints if r < 0.85 else {"$t": "nd_int", "v": ints}
+    return vals
 
 
 def maybe_shared(env, sev, p=0.25):
@@ -503,9 +520,9 @@ def gen_take(env, rate, sign=1, k=None):
     pts = gen_breaks(env, k=k or rng.choice([1, 2, 3]), cover=False,
                      lo=env.U0 - rng.choice([0, 1, 2]) * H6, hi=env.U1 + rng.choice([0, 1, 2]) * H6)
     n = len(pts) - 1
-    form = rng.choice(["list", "list", "nd_dt", "dti"] + (["scalar"] if n == 1 else []))
+    form = rng.choice(["list", "list", "nd_dt", "dti", "nd_obj"] + (["scalar"] if n == 1 else []))
     if form == "nd_dt" and env.param_tz is not None:
-        form = "list"
+        form = "nd_obj"
     hours = [(pts[i + 1] - pts[i]) / pd.Timedelta(hours=1) for i in range(n)]
     mx = [round(rate * h * rng.uniform(0.3, 0.9), 3) for h in hours]
     mn = [round(m * rng.uniform(0.0, 0.6), 3) for m in mx]
@@ -862,8 +879,17 @@ def gen_orderbook(env, node):
         C.append(round(rng.uniform(-5, 5), 2))
         P.append(round(rng.uniform(0, 100), 1))
     tz = env.tz  # order dates must be comparable with the grid's points
-    form = rng.choice(["list", "list", "df"]) if tz is None else "list"
+    form = rng.choice(["list", "list", "df", "nd"]) if tz is None else rng.choice(["list", "list", "nd"])
+    if rng.random() < 0.3:
+        P = [int(round(x)) for x in P]
+        if rng.random() < 0.5:
+            C = [int(round(x)) or 1 for x in C]
     d = {"start": [t_ts(s, tz) for s in S], "end": [t_ts(e, tz) for e in E], "capa": C, "price": P}
+    if form == "nd" and n > 0:
+        d["start"] = {"$t": "nd_obj", "v": [iso(s) for s in S], "tz": tz}
+        d["end"] = {"$t": "nd_obj", "v": [iso(e) for e in E], "tz": tz}
+        d["capa"] = {"$t": "nd_int", "v": C} if all(isinstance(x, int) for x in C) else t_nd(C)
+        d["price"] = {"$t": "nd_int", "v": P} if all(isinstance(x, int) for x in P) else t_nd(P)
     kw = {"name": asset_name(env), "nodes": {"$node": node}}
     if form == "df":
         kw["orders"] = {"$t": "orders_df", "d": d}
